@@ -1,6 +1,7 @@
 //! fxv — conformance harness binding the TLA+ specifications in /verif/spec to feoxdb.
 //! Every subcommand either executes specification-generated behaviours on the real code
 //! or records executions of the real code as ndjson traces for TLC to validate.
+mod cachedrv;
 mod fsm;
 mod layout;
 mod seqdrv;
@@ -16,6 +17,7 @@ fn main() {
     let code = match args[1].as_str() {
         "freespace" => fsm::main(rest),
         "seq" => seqdrv::main(rest),
+        "cache" => cachedrv::main(rest),
         "clocksat" => seqdrv::clocksat(rest),
         "layout-selftest" => layout::selftest(rest.first().map(|s| s.as_str()).unwrap_or("/dev/shm/fxv-layout")),
         "version" => {
